@@ -1,6 +1,12 @@
 // submgr drives the real subscriber.Manager (pkg/subscriber/manager.go) termination path, including two
 // TerminateSession calls for one session interleaved at the points where the manager releases its lock
 // (the address allocator is a harness stub whose ReleaseIPv4 can be held).
+//
+//	fault rel4|rel6 on|off    the stub's ReleaseIPv4 / ReleaseIPv6 fails from now on: like allocator.PoolAllocator and
+//	                          DistributedAllocator when their store cannot delete the record it returns an error and
+//	                          KEEPS the address handed out (`held=`); failed calls are counted in `relf=`.  (The
+//	                          AddressAllocator interface has no call that releases a delegated prefix: there is no
+//	                          `relpd`.)
 package main
 
 import (
@@ -24,7 +30,10 @@ type comp struct{}
 type stubAlloc struct {
 	mu      sync.Mutex
 	owner   map[int]string // address -> session id, for addresses currently handed out
-	rel     map[int]int    // address -> number of ReleaseIPv4 calls
+	rel     map[int]int    // address -> number of successful ReleaseIPv4 / ReleaseIPv6 calls
+	relf    map[int]int    // address -> number of FAILED release calls
+	fail4   bool           // ReleaseIPv4 fails
+	fail6   bool           // ReleaseIPv6 fails
 	allocs  map[int]int    // address -> number of successful Allocate calls
 	entered chan struct{}
 	resume  map[string]chan struct{} // per parked call (tag travels in the context)
@@ -47,8 +56,10 @@ func (a *stubAlloc) parkAssign(ctx context.Context) {
 	}
 }
 
-func ipOf(n int) net.IP  { return net.IPv4(10, 9, 0, byte(n)) }
-func ip6Of(n int) net.IP { return net.IP{0x20, 0x01, 0x0d, 0xb8, 0, 0, 0, 0, 0, 0, 0, 0, 0, 0, 0, byte(n)} }
+func ipOf(n int) net.IP { return net.IPv4(10, 9, 0, byte(n)) }
+func ip6Of(n int) net.IP {
+	return net.IP{0x20, 0x01, 0x0d, 0xb8, 0, 0, 0, 0, 0, 0, 0, 0, 0, 0, 0, byte(n)}
+}
 func numOf(ip net.IP) int {
 	if v4 := ip.To4(); v4 != nil {
 		return int(v4[3])
@@ -87,6 +98,13 @@ func (a *stubAlloc) AllocateIPv6(ctx context.Context, s *subscriber.Session, poo
 	return nil, nil, fmt.Errorf("exhausted")
 }
 func (a *stubAlloc) ReleaseIPv4(ctx context.Context, ip net.IP) error {
+	return a.release(ctx, ip, false)
+}
+func (a *stubAlloc) ReleaseIPv6(ctx context.Context, ip net.IP) error {
+	return a.release(ctx, ip, true)
+}
+
+func (a *stubAlloc) release(ctx context.Context, ip net.IP, v6 bool) error {
 	if tag, ok := ctx.Value(tagKey{}).(string); ok {
 		a.mu.Lock()
 		ch := make(chan struct{})
@@ -98,11 +116,15 @@ func (a *stubAlloc) ReleaseIPv4(ctx context.Context, ip net.IP) error {
 	a.mu.Lock()
 	defer a.mu.Unlock()
 	n := numOf(ip)
+	if (v6 && a.fail6) || (!v6 && a.fail4) {
+		// nothing changes on the allocator's side: the address stays handed out
+		a.relf[n]++
+		return fmt.Errorf("release failed (injected)")
+	}
 	a.rel[n]++
 	delete(a.owner, n)
 	return nil
 }
-func (a *stubAlloc) ReleaseIPv6(ctx context.Context, ip net.IP) error { return a.ReleaseIPv4(ctx, ip) }
 
 type pending struct {
 	done chan string
@@ -117,7 +139,7 @@ type run struct {
 	emu    sync.Mutex
 	calls  map[string]*pending
 	acalls map[string]*pending // AssignAddress calls held inside the allocator call
-	v6     bool // the run exercises the IPv6 halves of AssignAddress / TerminateSession (same model: one address per session)
+	v6     bool                // the run exercises the IPv6 halves of AssignAddress / TerminateSession (same model: one address per session)
 }
 
 func (comp) NewRun() hx.Run { return &run{} }
@@ -125,12 +147,18 @@ func (r *run) Close()       {}
 
 func (r *run) snapshot() string {
 	r.a.mu.Lock()
-	var rel, held, allocs []string
+	var rel, relf, held, allocs []string
 	for n, c := range r.a.rel {
 		if c > 0 {
 			rel = append(rel, fmt.Sprintf("%d:%d", n, c))
 		}
 	}
+	for n, c := range r.a.relf {
+		if c > 0 {
+			relf = append(relf, fmt.Sprintf("%d:%d", n, c))
+		}
+	}
+	sort.Strings(relf)
 	for n, c := range r.a.allocs {
 		if c > 0 {
 			allocs = append(allocs, fmt.Sprintf("%d:%d", n, c))
@@ -170,7 +198,7 @@ func (r *run) snapshot() string {
 		}
 		return strings.Join(x, ",")
 	}
-	return fmt.Sprintf("rel=%s held=%s sess=%s byip=%s ended=%s allocs=%s", j(rel), j(held), j(sess), j(byip), j(ev), j(allocs))
+	return fmt.Sprintf("rel=%s held=%s sess=%s byip=%s ended=%s allocs=%s relf=%s", j(rel), j(held), j(sess), j(byip), j(ev), j(allocs), j(relf))
 }
 
 func classify(err error) string {
@@ -198,7 +226,7 @@ func (r *run) Do(op string) string {
 	switch f[0] {
 	case "new":
 		r.v6 = len(f) > 1 && f[1] == "v6"
-		r.a = &stubAlloc{owner: map[int]string{}, rel: map[int]int{}, allocs: map[int]int{}, entered: make(chan struct{}, 8), resume: map[string]chan struct{}{}}
+		r.a = &stubAlloc{owner: map[int]string{}, rel: map[int]int{}, relf: map[int]int{}, allocs: map[int]int{}, entered: make(chan struct{}, 8), resume: map[string]chan struct{}{}}
 		cfg := subscriber.DefaultManagerConfig()
 		r.m = subscriber.NewManager(cfg, nil, r.a, zap.NewNop())
 		r.names = map[string]string{}
@@ -214,6 +242,22 @@ func (r *run) Do(op string) string {
 			}
 		})
 		return "ok"
+	case "fault": // fault rel4|rel6 on|off
+		if len(f) != 3 || (f[2] != "on" && f[2] != "off") {
+			return "badop"
+		}
+		r.a.mu.Lock()
+		switch f[1] {
+		case "rel4":
+			r.a.fail4 = f[2] == "on"
+		case "rel6":
+			r.a.fail6 = f[2] == "on"
+		default:
+			r.a.mu.Unlock()
+			return "badop"
+		}
+		r.a.mu.Unlock()
+		return "ok " + r.snapshot()
 	case "create": // create s1 m1
 		if _, dup := r.names[f[1]]; dup {
 			return "badop"
@@ -357,8 +401,15 @@ func (comp) Gen(rg *rand.Rand, tier string, emit func([]string)) {
 		aparked := []string{}
 		ln := 4 + rg.Intn(14)
 		for j := 0; j < ln; j++ {
-			x := rg.Intn(124)
+			x := rg.Intn(134)
 			switch {
+			case x >= 124:
+				// the allocator's release calls fail / work again (the flag of the other family is a no-op in this run)
+				fam := "rel4"
+				if (i%3 == 2) != (rg.Intn(6) == 0) {
+					fam = "rel6"
+				}
+				seq = append(seq, fmt.Sprintf("fault %s %s", fam, hx.Pick(rg, []string{"on", "on", "off"})))
 			case x >= 100 && x < 114:
 				// an AssignAddress call held inside the allocator call: terminations, other assignments and creates
 				// run in the window between its two critical sections
@@ -370,7 +421,7 @@ func (comp) Gen(rg *rand.Rand, tier string, emit func([]string)) {
 					aparked = append(aparked, name)
 					seq = append(seq, fmt.Sprintf("abegin %s s%d", name, 1+rg.Intn(made)))
 				}
-			case x >= 114:
+			case x >= 114 && x < 124:
 				if len(aparked) > 0 {
 					k := rg.Intn(len(aparked))
 					seq = append(seq, "aresume "+aparked[k])
